@@ -318,12 +318,18 @@ class ConvolvedFluxes(object):
             # same units as the current ones for the interpolation, and we need
             # to add the flux unit back.
 
+            # Converting between units can round an aperture that was reset
+            # to the maximum (or equals the minimum) just outside the
+            # tabulated range, so we clip after the conversion.
+            x = np.clip(c.apertures.to(self.apertures.unit).value,
+                        self.apertures.min().value, self.apertures.max().value)
+
             flux_interp = interp1d(self.apertures, self.flux)
-            c.flux = flux_interp(c.apertures.to(self.apertures.unit)) * self.flux.unit
+            c.flux = flux_interp(x) * self.flux.unit
 
             # The following is not strictly correct - errors from interpolation is not interpolation of errors
             error_interp = interp1d(self.apertures, self.error)
-            c.error = error_interp(c.apertures.to(self.apertures.unit)) * self.error.unit
+            c.error = error_interp(x) * self.error.unit
 
         else:
 
